@@ -274,4 +274,203 @@ theorem holdsP_final (a b : Nat) (fails : List Bool) (s : Schedule) :
   · exact Or.inl (Or.inr h)
   · exact Or.inr ⟨h.1, h.2⟩
 
+/-! ## ResourceManager.DisposeAll -/
+
+theorem sum_map_set_nat {π} (f : π → Nat) :
+    ∀ (ths : List π) (i : Nat) (l l' : π), ths[i]? = some l →
+      ((ths.set i l').map f).sum + f l = (ths.map f).sum + f l' := by
+  intro ths
+  induction ths with
+  | nil => intro i l l' h; simp at h
+  | cons a t ih =>
+    intro i l l' h
+    cases i with
+    | zero =>
+      simp only [List.getElem?_cons_zero, Option.some.injEq] at h
+      subst h
+      simp only [List.set_cons_zero, List.map_cons, List.sum_cons]
+      omega
+    | succ i =>
+      simp only [List.getElem?_cons_succ] at h
+      simp only [List.set_cons_succ, List.map_cons, List.sum_cons]
+      have := ih i l l' h
+      omega
+
+def mTaken (l : MLocal) : Nat := match l.pc with | .d2 => l.taken | _ => 0
+def mBusy (l : MLocal) : Nat := match l.pc with | .d2 => 1 | .d3 => 1 | _ => 0
+
+/-- registered = disposed + still in the map + taken by a DisposeAll in progress; `disposing` is
+set exactly while some DisposeAll is between its two critical sections. -/
+structure MInv (c : Cfg MShared MLocal) : Prop where
+  cons : c.sh.disposed + c.sh.pending + (c.ths.map mTaken).sum = c.sh.registered
+  busy : (c.ths.map mBusy).sum = (if c.sh.disposing then 1 else 0)
+
+theorem mInv_init (pre : Nat) (pcs : List MPc) (h : ∀ p ∈ pcs, p = MPc.reg ∨ p = MPc.d1) : MInv (mInit pre pcs) := by
+  have z : ∀ (f : MLocal → Nat), (∀ p, (p = MPc.reg ∨ p = MPc.d1) → f ⟨p, 0⟩ = 0) →
+      ((pcs.map fun p => (⟨p, 0⟩ : MLocal)).map f).sum = 0 := by
+    intro f hf
+    have : ∀ (l : List MPc), (∀ p ∈ l, p = MPc.reg ∨ p = MPc.d1) → ((l.map fun p => (⟨p, 0⟩ : MLocal)).map f).sum = 0 := by
+      intro l
+      induction l with
+      | nil => intro _; rfl
+      | cons a t ih =>
+        intro hl
+        simp only [List.map_cons, List.sum_cons]
+        rw [hf a (hl a (List.mem_cons_self ..)), ih (fun p hp => hl p (List.mem_cons_of_mem _ hp))]
+    exact this pcs h
+  refine ⟨?_, ?_⟩
+  · simp only [mInit]
+    rw [z mTaken (by intro p hp; rcases hp with rfl | rfl <;> rfl)]
+    omega
+  · simp only [mInit]
+    rw [z mBusy (by intro p hp; rcases hp with rfl | rfl <;> rfl)]
+    rfl
+
+theorem mInv_step (c : Cfg MShared MLocal) (i : Nat) (hc : MInv c) : MInv (stepAt mProg c i) := by
+  apply inv_stepAt_of_local mProg MInv c i hc
+  intro l hl
+  obtain ⟨h1, h2⟩ := hc
+  obtain ⟨sh, ths⟩ := c
+  obtain ⟨pending, registered, disposed, disposing⟩ := sh
+  obtain ⟨pc, taken⟩ := l
+  simp only at hl h1 h2
+  have e1 := fun l' => sum_map_set_nat mTaken ths i _ l' hl
+  have e2 := fun l' => sum_map_set_nat mBusy ths i _ l' hl
+  cases pc with
+  | reg =>
+    simp only [mProg, mStep]
+    have a := e1 ⟨MPc.done, taken⟩
+    have b := e2 ⟨MPc.done, taken⟩
+    simp only [mTaken, mBusy] at a b
+    exact ⟨by simp only; omega, by simp only; omega⟩
+  | d1 =>
+    cases disposing with
+    | true =>
+      simp only [mProg, mStep, Bool.true_or, if_true]
+      have a := e1 ⟨MPc.done, taken⟩
+      have b := e2 ⟨MPc.done, taken⟩
+      simp only [mTaken, mBusy] at a b
+      simp only [if_true] at h2
+      exact ⟨by simp only; omega, by simp only [if_true]; omega⟩
+    | false =>
+      simp only [Bool.false_eq_true, if_false] at h2
+      by_cases hp : pending = 0
+      · subst hp
+        simp only [mProg, mStep, Bool.false_or, beq_self_eq_true, if_true]
+        have a := e1 ⟨MPc.done, taken⟩
+        have b := e2 ⟨MPc.done, taken⟩
+        simp only [mTaken, mBusy] at a b
+        exact ⟨by simp only; omega, by simp only [Bool.false_eq_true, if_false]; omega⟩
+      · have hb : (pending == 0) = false := by simp [hp]
+        simp only [mProg, mStep, Bool.false_or, hb, Bool.false_eq_true, if_false]
+        have a := e1 ⟨MPc.d2, pending⟩
+        have b := e2 ⟨MPc.d2, pending⟩
+        simp only [mTaken, mBusy] at a b
+        exact ⟨by simp only; omega, by simp only [if_true]; omega⟩
+  | d2 =>
+    simp only [mProg, mStep]
+    have a := e1 ⟨MPc.d3, 0⟩
+    have b := e2 ⟨MPc.d3, 0⟩
+    simp only [mTaken, mBusy] at a b
+    exact ⟨by simp only; omega, by simp only; omega⟩
+  | d3 =>
+    simp only [mProg, mStep]
+    have a := e1 ⟨MPc.done, taken⟩
+    have b := e2 ⟨MPc.done, taken⟩
+    simp only [mTaken, mBusy] at a b
+    have hd : disposing = true := by
+      cases disposing with
+      | true => rfl
+      | false => simp only [Bool.false_eq_true, if_false] at h2; omega
+    subst hd
+    simp only [if_true] at h2
+    exact ⟨by simp only; omega, by simp only [Bool.false_eq_true, if_false]; omega⟩
+  | done =>
+    simp only [mProg, mStep]
+    rw [set_self_of_getElem? ths i _ hl]
+    exact ⟨h1, h2⟩
+
+theorem m_dec (c : Cfg MShared MLocal) (i : Nat) :
+    stepAt mProg c i = c ∨ mMu (stepAt mProg c i) < mMu c := by
+  cases hl : c.ths[i]? with
+  | none => left; exact stepAt_none _ _ _ hl
+  | some l =>
+    obtain ⟨pc, taken⟩ := l
+    cases pc with
+    | done => left; exact stepAt_eq_of_same _ c i _ hl rfl
+    | reg => right; exact mu_lt_of_weight _ mWeight c i _ hl (by simp [mProg, mStep, mWeight])
+    | d2 => right; exact mu_lt_of_weight _ mWeight c i _ hl (by simp [mProg, mStep, mWeight])
+    | d3 => right; exact mu_lt_of_weight _ mWeight c i _ hl (by simp [mProg, mStep, mWeight])
+    | d1 =>
+      right
+      apply mu_lt_of_weight _ mWeight c i _ hl
+      simp only [mProg, mStep]; split <;> simp [mWeight]
+
+/-- **Any mix of `Register` and `DisposeAll` calls, every interleaving**, followed by the last
+`DisposeAll`: every resource ever registered was disposed, exactly once in total, and the map is
+empty. -/
+theorem holdsM2_final (pre : Nat) (pcs : List MPc) (h : ∀ p ∈ pcs, p = MPc.reg ∨ p = MPc.d1) (s : Schedule) :
+    holdsM2 (rmObs (mFinal pre pcs s)) = true := by
+  let c := run mProg (s ++ rounds pcs.length (3 * pcs.length)) (mInit pre pcs)
+  have hinv : MInv c := inv_run _ _ mInv_step _ _ (mInv_init pre pcs h)
+  have hq : Quiescent mProg c := by
+    show Quiescent _ (run _ (s ++ rounds pcs.length (3 * pcs.length)) _)
+    rw [run_append]
+    apply rounds_quiescent _ (fun _ => True) mMu pcs.length (fun _ _ _ => trivial) (fun c i _ => m_dec c i)
+    · trivial
+    · rw [run_length]; simp [mInit]
+    · refine Nat.le_trans (mu_run_le _ (fun _ => True) mMu (fun _ _ _ => trivial) (fun c i _ => m_dec c i) _ _ trivial) ?_
+      simp only [mMu, mInit, List.map_map]
+      clear hinv
+      induction pcs with
+      | nil => simp
+      | cons p ps ih =>
+        have := ih (fun q hq => h q (List.mem_cons_of_mem _ hq))
+        simp only [List.map_cons, List.sum_cons, List.length_cons, Function.comp] at this ⊢
+        have hw : mWeight ⟨p, 0⟩ ≤ 3 := by cases p <;> simp [mWeight]
+        omega
+  have hdone : ∀ (i : Nat) (l : MLocal), c.ths[i]? = some l → l.pc = MPc.done := by
+    intro i l hl
+    obtain ⟨pc, taken⟩ := l
+    cases pc with
+    | done => rfl
+    | reg => exact absurd (hq i) (stepAt_ne_of_local _ _ i _ hl (by simp [mProg, mStep]))
+    | d2 => exact absurd (hq i) (stepAt_ne_of_local _ _ i _ hl (by simp [mProg, mStep]))
+    | d3 => exact absurd (hq i) (stepAt_ne_of_local _ _ i _ hl (by simp [mProg, mStep]))
+    | d1 =>
+      refine absurd (hq i) (stepAt_ne_of_local _ _ i _ hl ?_)
+      simp only [mProg, mStep]; split <;> simp
+  have z1 : (c.ths.map mTaken).sum = 0 := by
+    have : ∀ x ∈ c.ths, mTaken x = 0 := by
+      intro x hx
+      obtain ⟨i, hi⟩ := List.mem_iff_getElem?.mp hx
+      simp [mTaken, hdone i x hi]
+    clear hinv hq hdone
+    generalize c.ths = l at this
+    induction l with
+    | nil => rfl
+    | cons a t ih => simp only [List.map_cons, List.sum_cons]; rw [this a (List.mem_cons_self ..), ih (fun x hx => this x (List.mem_cons_of_mem _ hx))]
+  have z2 : (c.ths.map mBusy).sum = 0 := by
+    have : ∀ x ∈ c.ths, mBusy x = 0 := by
+      intro x hx
+      obtain ⟨i, hi⟩ := List.mem_iff_getElem?.mp hx
+      simp [mBusy, hdone i x hi]
+    clear hinv hq hdone z1
+    generalize c.ths = l at this
+    induction l with
+    | nil => rfl
+    | cons a t ih => simp only [List.map_cons, List.sum_cons]; rw [this a (List.mem_cons_self ..), ih (fun x hx => this x (List.mem_cons_of_mem _ hx))]
+  have h1 := hinv.cons
+  have h2 := hinv.busy
+  rw [z1] at h1
+  rw [z2] at h2
+  have hnd : c.sh.disposing = false := by
+    cases hd : c.sh.disposing with
+    | false => rfl
+    | true => rw [hd] at h2; simp at h2
+  show holdsM2 (rmObs (disposeAllSeq c.sh)) = true
+  by_cases hp : c.sh.pending = 0
+  · simp [disposeAllSeq, hnd, hp, holdsM2, rmObs]; omega
+  · simp [disposeAllSeq, hnd, hp, holdsM2, rmObs]; omega
+
 end Tunnox.C16
